@@ -40,6 +40,7 @@ def run(ctx: Ctx, rep: Report) -> None:
     rep.rule("C04-R4", "a constant subscript on a result list is preceded by an established length", floor=2)
     rep.rule("C04-R5", "a missing object (noSuchObject / noSuchInstance value) raises NoSuchOID for the requested OID", floor=3)
     rep.rule("C04-R6", "operations taking a caller-ordered OID list keep one result position per requested OID", floor=1)
+    rep.rule("C04-R9", "the pythonic operations hand OIDs, values and options to the raw operations one-to-one (shared with C15-R4)", floor=5)
     rep.rule("C04-R8", "get-next hands out every lexicographic successor: the progress guard passes requested < retrieved, position by position (shared with C03-R2/R3)", floor=4)
     rep.rule("C04-R7", "get-bulk: size bound, OID list, counters and response split agree (shared with C02-R2/R3)", floor=30)
     rep.assumptions += ["the response PDU's binding list is what the agent sent (C06)", "request-id handling is C07, error-status handling is C08, GETBULK bound is C02"]
@@ -257,6 +258,11 @@ def run(ctx: Ctx, rep: Report) -> None:
     check_bulk_builder(ctx, rep, wm, "C04-R7", "C04-R7")
     check_bulkget_result(ctx, rep, client)
     rep.adopt_rules(ctx.sub_run("c03", rep), "C04-R8", ["C03-R2", "C03-R3"])
+    rep.adopt_rules(ctx.sub_run("c15", rep), "C04-R9", ["C15-R4"])
+    # over SNMPv1 a missing object is signalled by error-status noSuchName: construct() has to map it to NoSuchOID
+    rep.adopt_rules(ctx.sub_run("c08", rep), "C04-R5", ["C08-R2"], containing="noSuchName")
+    rep.adopt_rules(ctx.sub_run("c08", rep), "C04-R5", ["C08-R2"], containing="builds NoSuchOID")
+    rep.adopt_rules(ctx.sub_run("c08", rep), "C04-R5", ["C08-R2"], containing="direct* subclass")
     for name in ("multigetnext", "multiget"):
         meth = client.methods.get(name)
         if meth is None:
